@@ -242,6 +242,26 @@ def tile_query(prog: Program) -> List[Instance]:
                         "first and last pixel are mapped to tiles by the tiling's own locate()" if nloc >= 2 else "pixel-to-tile lookup no longer goes through the tiling's locate(): variable-sized tilings get wrong tile ranges", rfb.where()))
     # linear path: box of the *same* idx, mapped by the affine parameter, rounded (outwards), queried on src
     g = prog.func("geobox:GeoboxTiles._grid_intersect_linear")
+    # src.tiles(<pixel box>) clamps a box outside the raster to the nearest edge tile: the query must be skipped
+    # for destination tiles whose mapped box does not reach the source, or disjoint rasters get a full graph
+    gcond = Conditions(g.body)
+    for n in walk_own(g.node):
+        if isinstance(n, ast.Call) and call_name(n) == "tiles" and isinstance(n.func, ast.Attribute):
+            st = enclosing_stmt(n)
+            loop = next((a for a in _anc(st, g.node) if isinstance(a, ast.For)), None)
+            guarded = False
+            if loop is not None:
+                # a `continue` (or an enclosing if) conditioned on the source's shape precedes the query
+                shape_names = {t.id for x in walk_own(g.node) if isinstance(x, ast.Assign) and any(isinstance(a_, ast.Attribute) and a_.attr in ("shape", "yx", "xy") for a_ in ast.walk(x.value)) for t in ast.walk(x.targets[0]) if isinstance(t, ast.Name)}
+                for x in loop.body:
+                    if x is st:
+                        break
+                    if isinstance(x, ast.If) and any(isinstance(y, (ast.Continue, ast.Return)) for y in x.body) and names_in(x.test) & shape_names:
+                        guarded = True
+                guarded = guarded or any(names_in(e) & shape_names for e, _p in conds_at(gcond, st))
+            out.append(Instance("R-GUARDSEQ", f"{g.qual}#skip-outside-source", OK if guarded else BAD,
+                                "destination tiles whose mapped box lies outside the source are skipped before the (clamping) tile query" if guarded else
+                                f"`{short(n, 40)}` is asked for every destination tile: range_from_bbox clamps a box outside the raster to the nearest edge tile, so disjoint rasters yield a full dependency graph instead of an empty one", g.where(n)))
     pp = [p.arg for p in g.positional_params()][1:]
     src_p, A_p = pp[0], pp[1]
     org = Origins(g)
@@ -947,3 +967,10 @@ def base_world_affine_use(prog: Program) -> List[Instance]:
                                 (f"`self._affine` {kind} only on the `self.linear` path" if guarded else f"overridden in {[c.name for c in nonlinear]}") if ok else
                                 f"GeoBoxBase.{name} uses `self._affine` as a pixel->world mapping ({kind}) without a `self.linear` guard, and {missing} does not override it: for that class `_affine` is only the view in the pixel plane, the answer is in pixel units labelled with the world CRS", m.where(n)))
     return out
+
+
+def _anc(n: ast.AST, stop: ast.AST):
+    p = parent(n)
+    while p is not None and p is not stop:
+        yield p
+        p = parent(p)
